@@ -163,8 +163,19 @@ def _open_desc(cm, st, o):
     return d
 
 
+WORK = {"left": None}
+
+
+class ModelBudget(Exception):
+    """the model's own work budget is exhausted (instance too large for exact enumeration)"""
+
+
 def _attach(cm, st, o, tok, j):
     """bond open descriptor o with descriptor j of a new instance of tok"""
+    if WORK["left"] is not None:
+        WORK["left"] -= 1
+        if WORK["left"] < 0:
+            raise ModelBudget()
     inst = len(st.instances)
     new_opens = tuple(x for x in st.opens if x is not o) + tuple((inst, d.idx, d.weight, d.transitions) for d in tok.descs if d.idx != j)
     od = _open_desc(cm, st, o)
@@ -211,19 +222,51 @@ def finalize_options(cm, S: CStoch, st):
     else:
         starts = [(st, None, 1.0)]
     for st0, reserved, p0 in starts:
-        frontier = [(st0, p0)]
-        while frontier:
-            cur, p = frontier.pop()
-            if not cur.opens:
-                final = cur if reserved is None else State(cur.instances, cur.bonds, (reserved,))
-                results.append((final, p))
-                continue
-            for o, po in _pick_open(cur):
-                od = _open_desc(cm, cur, o)
-                cands = [((tok, d), d.weight) for tok in S.ends for d in tok.descs if compat(od.triple, d.triple)]
-                for (tok, d), pp in weighted(cands):
-                    frontier.append((_attach(cm, cur, o, tok, d.idx), p * po * pp))
-    return results
+        level = [(st0, p0)]
+        while level:
+            nxt = []
+            for cur, p in level:
+                if not cur.opens:
+                    final = cur if reserved is None else State(cur.instances, cur.bonds, (reserved,))
+                    results.append((final, p))
+                    continue
+                for o, po in _pick_open(cur):
+                    od = _open_desc(cm, cur, o)
+                    cands = [((tok, d), d.weight) for tok in S.ends for d in tok.descs if compat(od.triple, d.triple)]
+                    for (tok, d), pp in weighted(cands):
+                        nxt.append((_attach(cm, cur, o, tok, d.idx), p * po * pp))
+            level = merge_iso(nxt)
+    return merge_iso(results)
+
+
+def state_key(st):
+    """canonical form of an abstract state up to renumbering of instances (rooted at instance 0, which is
+    always the first residue created).  Isomorphic states behave identically under the law, so the
+    enumerator merges them."""
+    adj = collections.defaultdict(list)
+    for a, da, b, db in st.bonds:
+        adj[a].append((da, db, b))
+        adj[b].append((db, da, a))
+    opens = collections.defaultdict(list)
+    for inst, di, w, tr in st.opens:
+        opens[inst].append((di, w, tr))
+
+    def canon(n, parent):
+        kids = sorted(((da, db, canon(c, n)) for da, db, c in adj[n] if c != parent), key=repr)
+        return (st.instances[n], tuple(kids), tuple(sorted(opens.get(n, ()), key=repr)))
+
+    return canon(0, -1)
+
+
+def merge_iso(pairs):
+    acc = collections.OrderedDict()
+    for st, p in pairs:
+        k = state_key(st)
+        if k in acc:
+            acc[k][1] += p
+        else:
+            acc[k] = [st, p]
+    return [(st, p) for st, p in acc.values()]
 
 
 def merge(pairs):
@@ -269,13 +312,16 @@ def generate_stochastic(cm, S: CStoch, start_pairs, target, max_states=200000):
                     for st3, p3 in finalize_options(cm, S, st2):
                         done.append((st3, p * pp * p3))
                 else:
-                    key = (st2, w0)
-                    nxt[key] = nxt.get(key, 0.0) + p * pp
-        active = [(st, p, w0) for (st, w0), p in nxt.items()]
+                    key = (state_key(st2), w0)
+                    if key in nxt:
+                        nxt[key][1] += p * pp
+                    else:
+                        nxt[key] = [st2, p * pp, w0]
+        active = [(st, p, w0) for st, p, w0 in nxt.values()]
         guard += len(active)
         if guard > max_states:
             raise Stuck("model state budget exceeded")
-    return merge(done)
+    return merge_iso(done)
 
 
 def generate_token(cm, T: CTok, start_pairs):
@@ -346,7 +392,15 @@ def tree_key(cm, st):
     return (canon(0, -1), len(opens))
 
 
-def exact_distribution(cm, targets):
+def exact_distribution(cm, targets, work=60000):
+    WORK["left"] = work
+    try:
+        return _exact_distribution(cm, targets)
+    finally:
+        WORK["left"] = None
+
+
+def _exact_distribution(cm, targets):
     by_tree = collections.OrderedDict()
     for st, p in exact_states(cm, targets):
         k = tree_key(cm, st)
